@@ -321,6 +321,23 @@ def case_linear(fam, rep):
                     else:
                         run.fail("newton.linear", "clause=linear-problem-one-update[counted]", "a linear problem with scaled / resized item matrices took %d linear "
                                  "solves (%d reported iterations)" % (count[0], res3.iterations))
+            # a direct linear analysis through the partitioned solve, without a residual vector (documented: r is optional) and with a
+            # residual, both with moved boundaries: du solves K11 du1 = -(r1 + K10 (ext0 - u0)), du0 = ext0 - u0 (own evaluation)
+            fd = problems.field_for(fam, mesh, kind)
+            bd_, lcd = fem.dof.uniaxial(fd, clamped=True, move=float(rng.uniform(0.05, 0.15)) * (1 if rng.integers(0, 2) else -1))
+            bodyd = fem.SolidBody(type(umat)(E=umat.E, nu=umat.nu), fd)
+            Kd = bodyd.assemble.matrix(fd).tocsr()
+            rd = bodyd.assemble.vector(fd).toarray().ravel()
+            d0, d1, e0 = lcd["dof0"], lcd["dof1"], lcd["ext0"]
+            for with_r in (False, True):
+                sysd = fem.solve.partition(fd, Kd, d1, d0, rd.reshape(-1, 1) if with_r else None)
+                du = np.asarray(fem.solve.solve(*sysd, ext0=e0)).ravel()
+                Kdd = Kd.toarray()
+                rhs = -(Kdd[np.ix_(d1, d0)] @ (e0 - 0.0)) - (rd[d1] if with_r else 0.0)
+                du1_ref = np.linalg.solve(Kdd[np.ix_(d1, d1)], rhs)
+                run.compare("newton.linear", "clause=partitioned-solve residual-given=%s" % with_r, max(maxabs(du[d1] - du1_ref), maxabs(du[d0] - e0)) / max(maxabs(du1_ref), 1e-300), 1e-9,
+                            "solve.partition / solve.solve (direct linear analysis %s a residual vector): the increment does not solve the reduced system" % ("with" if with_r else "without"),
+                            unit="solve:direct:%s" % ("with-r" if with_r else "without-r"), config=("direct-solve", fam, with_r))
             # Laplace (scalar) problem through the x0/fun/jac call style
             reg = gen.make_region(fam, mesh)
             sf = fem.FieldContainer([fem.Field(reg, dim=1)])
@@ -406,7 +423,7 @@ SPEC = {
                        "success:boundary-honoured:field2", "styles:no-ext0", "styles:constraint", "styles:converged-at-maxiter", "styles:parallel+solver",
                        "styles:no-items", "styles:array-newton", "styles:array-newton-raises", "success:continuation", "success:unload-to-zero", "linear:unload-one-iteration", "success:prescribed-values",
                        "success:reported-residual", "success:reassembly", "success:reassembly-settled", "success:fun", "success:commit",
-                       "solve:reduced-system", "solve:prescribed-increment", "linear:one-iteration", "linear:one-solve-counted", "linear:overlapping-boundaries", "failure:maxiter",
+                       "solve:reduced-system", "solve:prescribed-increment", "linear:one-iteration", "linear:one-solve-counted", "linear:overlapping-boundaries", "solve:direct:without-r", "solve:direct:with-r", "failure:maxiter",
                        "failure:no-commit", "failure:raises:ValueError"],
     "rule": ("boundary value problems on seeded interior-distorted box meshes (9 element families; 3D, plane strain, axisymmetric, mixed "
              "u/p/J, nearly-incompressible body; body force, point load, follower pressure), random tolerance 1e-12..1e-4, continuation "
